@@ -283,14 +283,14 @@ Definition show_tm_sched (progs : list (list mop)) (sched : list nat) :=
 (** * buffer manager *)
 Definition bop_eqb (a b : bop) : bool :=
   match a, b with
-  | BAlloc g s, BAlloc h t | BAllocPre g s, BAllocPre h t | BResize g s, BResize h t => (g =? h) && (s =? t)
+  | BAlloc g s, BAlloc h t | BAllocPre g s, BAllocPre h t | BResize g s, BResize h t | BResizePre g s, BResizePre h t => (g =? h) && (s =? t)
   | BRelease g, BRelease h => g =? h
   | _, _ => false
   end.
 (** grants a thread still holds at the end, computed from its acknowledged operations *)
 Definition held_after (o : list (bop * out)) : list (Z * Z) :=
   fold_left (fun m x => match x with
-                        | (BAlloc g s, OB true) | (BAllocPre g s, OB true) | (BResize g s, OB true) => aset g s m
+                        | (BAlloc g s, OB true) | (BAllocPre g s, OB true) | (BResize g s, OB true) | (BResizePre g s, OB true) => aset g s m
                         | (BRelease g, OB true) => adel g m
                         | _ => m
                         end) o [].
@@ -392,7 +392,7 @@ Definition k_wal_rot := k_wal_rotation.
 Definition k_rdf_torn := k_rdf.
 Definition k_label_torn := k_label.
 Definition k_deadlock := k_label_deadlock.
-Definition k_buf_resize (progs : list (list bop)) : bool :=
-  existsb (existsb (fun op => match op with BResize _ _ => true | _ => false end)) progs.
+Definition k_buf_resize_pre (progs : list (list bop)) : bool :=
+  existsb (existsb (fun op => match op with BResizePre _ _ => true | _ => false end)) progs.
 Definition k_buf_pre (progs : list (list bop)) : bool :=
   existsb (existsb (fun op => match op with BAllocPre _ _ => true | _ => false end)) progs.
